@@ -18,7 +18,10 @@ struct Cfg {
   std::vector<int> ops;   // alphabet as raw op ids; empty = the standard alphabet (raw ops 0..33)
   int raw(int i) const { return ops.empty() ? i : ops[i]; }
   std::string name() const {
-    char b[96]; snprintf(b, sizeof b, "opt=%#x,g=%u", options, granularity); return b;
+    char b[96];
+    if (block_size != 65536) snprintf(b, sizeof b, "opt=%#x,g=%u,b=%u", options, granularity, block_size);
+    else snprintf(b, sizeof b, "opt=%#x,g=%u", options, granularity);
+    return b;
   }
 };
 
@@ -421,7 +424,7 @@ int main(int argc, char** argv) {
   if (c.replaying()) {
     Cfg cfg; std::vector<int> h;
     for (auto& line : vh::split(c.replay_text, '\n')) {
-      if (line.rfind("cfg=", 0) == 0) sscanf(line.c_str(), "cfg=%x,%u,%d", &cfg.options, &cfg.granularity, &cfg.max_live);
+      if (line.rfind("cfg=", 0) == 0) sscanf(line.c_str(), "cfg=%x,%u,%d,%u", &cfg.options, &cfg.granularity, &cfg.max_live, &cfg.block_size);
       if (line.rfind("ops=", 0) == 0) for (auto& x : vh::split(line.substr(4), ',')) if (!x.empty()) h.push_back(atoi(x.c_str()));
     }
     cfg.fill_pattern = 0xA1B2C3D4u;
@@ -454,6 +457,7 @@ int main(int argc, char** argv) {
     std::vector<Cfg> g;
     for (uint32_t opt : {0u, (uint32_t)kNoPad, (uint32_t)(kMulti | kFill), (uint32_t)kImm}) {
       Cfg x; x.fill_pattern = 0xA1B2C3D4u; x.options = opt; x.granularity = 64; x.ops = {0, 3, 4, 5, 34, 35, 36, 8, 9, 12 + 2, 32, 33}; g.push_back(x);
+      if (opt == 0u || opt == (uint32_t)(kMulti | kFill)) { Cfg y = x; y.block_size = 131072; g.push_back(y); }   // another base block size
       if (!c.thorough()) continue;
       x.granularity = 256; g.push_back(x);
     }
@@ -462,8 +466,8 @@ int main(int argc, char** argv) {
   const Cfg* cur_cfg = nullptr;
   xplor::case_formatter() = [&](const std::string& cfg_name, const std::vector<int>& h) {
     std::string ops; for (size_t i = 0; i < h.size(); i++) { if (i) ops += ","; ops += std::to_string(cur_cfg ? cur_cfg->raw(h[i]) : h[i]); }
-    unsigned o = 0, g = 0; sscanf(cfg_name.c_str(), "opt=%x,g=%u", &o, &g);
-    char cf[64]; snprintf(cf, sizeof cf, "cfg=%x,%u,%d", o, g, 4);
+    unsigned o = 0, g = 0, bs = 65536; sscanf(cfg_name.c_str(), "opt=%x,g=%u,b=%u", &o, &g, &bs);
+    char cf[64]; snprintf(cf, sizeof cf, "cfg=%x,%u,%d,%u", o, g, 4, bs);
     return std::string("harness=c09_jitalloc\n") + cf + "\nops=" + ops + "\n";
   };
   int done_cfgs = 0;
@@ -494,6 +498,6 @@ int main(int argc, char** argv) {
                    "JitAllocator with 64 KiB blocks; a state is distinct when its canonical form (per pool: block list with flags, search window, largest-unused cache, "
                    "used/stop bit vectors; cursor; empty count; allocation count) was not seen before; the oracle (span model, queries, statistics, fill pattern, "
                    "reuse, empty-block policy, bit-vector cross-check) runs after every transition";
-  c.assumptions.push_back("block size fixed to 64 KiB (smallest legal), at most 4 live spans; large pages only as far as the kernel grants them");
+  c.assumptions.push_back("block size 64 KiB (smallest legal; 128 KiB in two configurations of the block-growth phase), at most 4 live spans; large pages only as far as the kernel grants them");
   return vh::finish();
 }
